@@ -79,6 +79,16 @@ CHECKS = {
              "that must be refused because an address word would exceed 16 bits.",
         note="Trusted: vf/model.py (affine base tracking). Bases are multiples of 0o100 so that padding does not depend on the base.",
         design="4/C09"),
+    "C10": dict(
+        category="exploration",
+        technique="metamorphic Hypothesis testing: two independently drawn spellings of one model program; token-span respelling of the practice corpus",
+        text="Every generated model program is rendered under two independently drawn compositions of the rewrite rules the property "
+             "lists (22 rule classes: case, blanks, comments, radix, grouping, register spellings, synonyms, implicit .word, legacy "
+             "@rN, aliases, ! and ^C, quotes) and both texts must assemble to the same outcome, base and bytes (also equal to the "
+             "reference assembler). The 21 practice programs are respelled on pdpy11's own token spans and must keep their recorded "
+             "image. Evidence reports per rule how many pairs exercised it.",
+        note="Trusted: the soundness of each rewrite rule in vf/render.py / c10.corpus_edits (each is one the property names).",
+        design="4/C10"),
     "C12": dict(
         category="exploration",
         technique="Hypothesis link-expression programs, differential against a reference assembler with affine base tracking",
@@ -89,6 +99,16 @@ CHECKS = {
              "(with which value) and which must be refused (and with which identifier).",
         note="Trusted: vf/model.py + vf/ref/expr.py affine arithmetic; identifiers address-conflict / recursive-definition / value-out-of-bounds.",
         design="4/C12"),
+    "C16": dict(
+        category="exploration",
+        technique="metamorphic Hypothesis testing: structured form vs flattened form of the same program (repeat/unrolled, linked/concatenated, insert_file/.byte, .end/truncated, .once/single include)",
+        text="Five equivalences are generated as pairs of programs and assembled by pdpy11; outcome class, base and bytes must agree, and "
+             "the flattened form must equal the reference assembler. Repeat bodies are weighted toward what makes copies differ or "
+             "syntax trees be rewritten ('.'-dependent operands, indexed operands with compound symbolic offsets, / % << >> on '.', "
+             "branches to .+-k and outside labels, nesting to depth 3, counts 0-40 literal or defined later); .end is followed by "
+             "arbitrary, also unparseable, text in main, linked and included files.",
+        note="Trusted: the flattening transformations in vf/props/c16.py; vf/model.py for the second oracle.",
+        design="4/C16"),
     "C14": dict(
         category="exploration",
         technique="exhaustive enumeration (256 bytes, 0x110000 code points) + Hypothesis strings against Python's koi8-r/ASCII and the round-trip law",
